@@ -446,8 +446,10 @@ def vanish_effects(ctx, s):
     else:
         s.add("S-EFFECT", fn, "vanish-effects", "vanish", fn.sp, PROVED,
               "vanish only queries (find_events) and removes by id (remove_event), each removal its own transaction")
-    rem = s.calls(fn, names={"pocket_db::Store::remove_event"})
-    ctx.floor("C18.vanish.remove-calls", len(rem), 2)
+    rem = s.calls_deep(fn, names={"pocket_db::Store::remove_event"})
+    ctx.instances["C18.vanish.remove-calls"] = len(rem)
+    if not rem:
+        s.add("S-EFFECT", fn, "vanish-removes", "vanish", fn.sp, VIOLATION, "vanish never calls remove_event")
     return rem
 
 
@@ -509,13 +511,50 @@ def no_direct_file_writes(ctx, s):
                                     or "FileExt" in c or "io::Write" in c or c.startswith("std::io::impls::")):
                 bad.append((f, bi, c, t))
     anchor = ctx.fn(APPENDER)
+    n_map = 0
     for f, bi, c, t in bad:
-        s.add("S-EFFECT", f, "file-written-directly", c.rsplit("::", 2)[-2] + "::" + c.rsplit("::", 1)[-1], t["sp"], VIOLATION,
-              "pocket-db writes to a file through a file handle (%s): stored bytes or the end marker can change under live references, "
-              "outside the append-only discipline" % c, bi)
-    if not bad:
+        an = ctx.E.an(f)
+        info = an.term.get(bi)
+        recv = info["args"][0] if info and info.get("args") else None
+        names, root = s.receiver_field(f, recv) if recv is not None else (None, None)
+        on_map = bool(names) and names[-1] == "event_map_file"
+        if not on_map and recv is not None:
+            # the handle reached through a local that was loaded from the field, or a clone of it
+            on_map = contains_value(recv, lambda y: y[0] == "field" and _field_name(ctx, an, y) == "event_map_file") or \
+                any(contains_value(x, lambda y: y[0] == "field" and _field_name(ctx, an, y) == "event_map_file")
+                    for x in (info.get("pre") or []) if x is not None)
+        in_store = f.nice.startswith("pocket_db::EventStore::") or f.nice.startswith("pocket_db::event_store::")
+        if on_map or in_store:
+            n_map += 1
+            s.add("S-EFFECT", f, "file-written-directly", c.rsplit("::", 2)[-2] + "::" + c.rsplit("::", 1)[-1], t["sp"], VIOLATION,
+                  "the event map file is written through its file handle (%s): stored bytes or the end marker can change under live "
+                  "references, outside the append-only discipline" % c, bi)
+        else:
+            s.add("S-EFFECT", f, "other-file-written", c.rsplit("::", 2)[-2] + "::" + c.rsplit("::", 1)[-1], t["sp"], UNDECIDED,
+                  "a file handle that is not the event store's own handle is written (%s); whether that file is the event map "
+                  "(re-opened by path) is not decided" % c, bi)
+    if not n_map:
         s.add("S-EFFECT", anchor, "file-written-directly", "none", anchor.sp, PROVED,
-              "no function of pocket-db writes to a file through a file handle (growth by set_len only)")
+              "no function of pocket-db writes to the event map through its file handle (growth by set_len only)")
+
+
+def _field_name(ctx, an, y):
+    """name of the field selected by a ("field", base, idx) location, when the base type is a known struct"""
+    try:
+        base = y[1]
+        tk = None
+        if base[0] == "deref":
+            tk = an.vtype.get(base[1])
+        elif base[0] == "local":
+            tk = an.local_tk[base[1]]
+        while tk is not None and tk["k"] in ("ref", "ptr"):
+            tk = tk["to"]
+        if tk is None or tk["k"] != "adt":
+            return None
+        adt = ctx.F.adts.get(tk["path"])
+        return adt["variants"][0]["fields"][y[2]]["n"] if adt else None
+    except Exception:
+        return None
 
 
 def recorded_length_is_file_length(ctx, s):
@@ -559,23 +598,24 @@ def delineate_minimum(ctx, s):
     an = ctx.E.an(fn)
     inp = ("param", 1)
     ln = an.len_of(inp)
-    errs = [(n, v) for n, k, v in s.return_kinds(fn) if k == "err"]
-    oks = [n for n, k, v in s.return_kinds(fn) if k == "ok"]
+    P = ctx.E.prover(fn)
     MIN = 144 + 4 + 4
-    exact = False
-    loose = False
-    for n in oks:
-        for f in ctx.E.facts(fn, n):
-            if f[0] == "le" and len(f[1][1]) == 1 and f[1][1][0] == (ln, -1):
-                if f[1][0] == MIN:
-                    exact = True        # MIN - len <= 0
-                elif f[1][0] > MIN:
-                    loose = True
-    rej = False
-    for n, v in errs:
-        for f in ctx.E.facts(fn, n):
-            if f[0] == "le" and len(f[1][1]) == 1 and f[1][1][0] == (ln, 1) and f[1][0] == -(MIN - 1):
-                rej = True              # len - 151 <= 0
+    L = P.lin(ln)
+
+    def le(node, K):        # len <= K provable at node
+        return P.prove_le0(lin_add(L, lin_const(-K)), ctx.E.facts(fn, node))
+
+    def ge(node, K):        # len >= K provable at node
+        return P.prove_le0(lin_add(lin_const(K), L, -1), ctx.E.facts(fn, node))
+    rk = s.return_kinds(fn)
+    # returns that are not Err (Ok(..) or an Option-to-Result conversion of a successful slice) carry len >= 152 and
+    # nothing stronger; some Err return carries exactly len <= 151; every Err return carries len <= 151 or the
+    # recorded-length test
+    accept = [n for n, k, v in rk if k != "err"]
+    reject = [n for n, k, v in rk if k == "err"]
+    exact = bool(accept) and all(ge(n, MIN) for n in accept)
+    loose = any(ge(n, MIN + 1) for n in accept)
+    rej = any(le(n, MIN - 1) and not le(n, MIN - 2) for n in reject)
     ok = exact and rej and not loose
     s.add("S-REL", fn, "minimum-event-length", "len >= 152", fn.sp, PROVED if ok else VIOLATION,
           "accepts every input of at least 152 bytes (the smallest event) whose recorded length fits; rejects shorter ones" if ok else
